@@ -1,6 +1,6 @@
 #!/bin/sh
 # Re-evaluates every seeded change with the machinery of this tree (regression of the checks themselves).
-# usage: seed_regress.sh <worktree1> [<worktree2> ...]   -- one stream per scratch worktree of /repo
+# usage: [SEED_REGRESS_FILTER=<regex on ids>] seed_regress.sh <worktree1> [<worktree2> ...]   -- one stream per scratch worktree of /repo
 # Results: seeded/<id>/meta.json of THIS tree (run it from a snapshot with `vp run`, then copy the metas back).
 ROOT="$(cd "$(dirname "$0")/.." && pwd)"
 cd "$ROOT" || exit 2
@@ -13,6 +13,7 @@ for WT in "$@"; do
     for d in "$ROOT"/seeded/*/; do
       id=$(basename "$d")
       [ -f "$d/patch.diff" ] || continue
+      if [ -n "${SEED_REGRESS_FILTER:-}" ] && ! echo "$id" | grep -Eq "$SEED_REGRESS_FILTER"; then continue; fi
       if [ $((j % N)) -eq $i ]; then
         props=$(python3 -c "import json,sys; m=json.load(open('$d/meta.json')); print(' '.join(dict.fromkeys([m.get('property') or c['property'] for c in m['checks'][:1]] + [c['property'] for c in m['checks']])))")
         mkdir -p /tmp/seed_regress_in/$id && cp "$d/patch.diff" "$d/demo.rs" /tmp/seed_regress_in/$id/ && cp "$d/README.md" /tmp/seed_regress_in/$id/ 2>/dev/null
